@@ -10,6 +10,7 @@ import (
 	"encoding/json"
 	"fmt"
 	"math/rand"
+	"strings"
 
 	dbm "github.com/cometbft/cometbft-db"
 	sdk "github.com/cosmos/cosmos-sdk/types"
@@ -49,11 +50,15 @@ func (r *runner) exportImport(ob M) {
 	if ob["export_panic"] != "" {
 		return
 	}
+	ob["validate_eco_table"] = ""
+	ob["validate_data_table"] = ""
 	if err := r.app.eco.ValidateGenesis(r.app.cdc, nil, eco); err != nil {
 		ob["validate_eco"] = firstLine(err.Error())
+		ob["validate_eco_table"] = tableOfError(err.Error())
 	}
 	if err := r.app.dataValidateGenesis(dat); err != nil {
 		ob["validate_data"] = firstLine(err.Error())
+		ob["validate_data_table"] = tableOfError(err.Error())
 	}
 	// bank state travels with the chain
 	gi := &GenesisInput{Ecocredit: eco, Data: dat, Time: r.app.blockTime}
@@ -84,6 +89,20 @@ func (r *runner) exportImport(ob M) {
 	// continue on the imported chain
 	r.app.CloseBlock()
 	r.app, r.db = na, ndb
+}
+
+// tableOfError extracts X from the ORM's "Error in JSON for table X: ..." message.
+func tableOfError(msg string) string {
+	const pre = "Error in JSON for table "
+	i := strings.Index(msg, pre)
+	if i < 0 {
+		return "?"
+	}
+	rest := msg[i+len(pre):]
+	if j := strings.Index(rest, ":"); j >= 0 {
+		return rest[:j]
+	}
+	return "?"
 }
 
 func firstDiff(a, b string) string {
